@@ -62,7 +62,7 @@ def run(R):
             else:
                 text = c07.blind(rng, text)
             opts = rng.choice([[], [b"-R"], [b"-N"], [b"-f"], [b"-F", b"2147483647"], [b"-l"]])
-            jobs.append(dict(cut=R.cut, tree=drv.tree_with_patch(A, text), argv=opts + [b"-p1", b"-i", drv.PATCHNAME], timeout=10))
+            jobs.append(dict(cut=R.cut, tree=drv.tree_with_patch(A, text), argv=opts + [b"-p1", b"-i", drv.PATCHNAME], timeout=10, uid=65534))
             meta.append((text, opts, jobs[-1]["tree"]))
         # git headers with no body at all, binary markers, and everything that makes patch create directories for an
         # absolute path (@ROOT@ = the scratch directory): new file, rejects of a failing hunk, -o, -r, git rename/copy
